@@ -36,6 +36,8 @@
 #include <givaro/zring.h>
 #include <givaro/gf2.h>
 #include <givaro/extension.h>
+#include <givaro/givrational.h>
+#include <givaro/qfield.h>
 #include <recint/recint.h>
 
 using Givaro::Integer;
@@ -569,6 +571,38 @@ static void c_ext(const Args& a) {
 }
 
 // ------------------------------------------------------------------------------------------
+// D3. QField<Rational>::random / nonzerorandom (qfield.h): numerator and denominator are Integer::random / nonzerorandom draws (GMP's generator)
+// ------------------------------------------------------------------------------------------
+// qf seed pat kind a b = num den T trace U num2 den2
+//   kind 0 random(g, r, int64_t s = a)   1 nonzerorandom(g, r, s = a)   2 random(g, r, B)   3 nonzerorandom(g, r, B)   with B = Rational(a, b)
+//   the draw is made twice from the same generator state into destinations holding different rationals
+static void c_qf(const Args& a) {
+    uint64_t seed = a.W(0); unsigned long long pat = a.W(1); int kind = (int)a.W(2);
+    Integer A = argZ(a, 3), Bd = argZ(a, 4);
+    Givaro::QField<Givaro::Rational> Q;
+    Givaro::GivRandom g(seed | 1);
+    std::string res[2], log1;
+    for (int rep = 0; rep < 2; ++rep) {
+        Givaro::Rational r = rep ? Givaro::Rational(Integer(-7), pow2(70) + 1) : Givaro::Rational(pow2(300) + 7, Integer(3));
+        Givaro::Rational B(1);
+        if (kind >= 2) B = Givaro::Rational(A, Bd);
+        Integer::seeding((uint64_t)seed);
+        tr::begin(pat);
+        switch (kind) {
+            case 0: Q.random(g, r, (int64_t)(long)A); break;
+            case 1: Q.nonzerorandom(g, r, (int64_t)(long)A); break;
+            case 2: Q.random(g, r, B); break;
+            case 3: Q.nonzerorandom(g, r, B); break;
+            default: tr::end(); out(a, "BADKIND"); return;
+        }
+        tr::end();
+        if (rep == 0) log1 = tr::log;
+        res[rep] = hx(r.nume()) + " " + hx(r.deno());
+    }
+    out(a, res[0] + " T" + log1 + " U " + res[1]);
+}
+
+// ------------------------------------------------------------------------------------------
 // E. RecInt: rand(ruint<K>), rand(rint<K>), rand(rmint<K>) on std::mt19937_64
 // ------------------------------------------------------------------------------------------
 // ru K seed n = v1..vn T w1 w2 …      (raw 64-bit words in the order the generator produced them)
@@ -678,6 +712,7 @@ static void run_case(const Args& a) {
     else if (k == "ring") c_ring(a);
     else if (k == "poly") c_poly(a);
     else if (k == "ext") c_ext(a);
+    else if (k == "qf") c_qf(a);
     else if (k == "ru") c_ru(a);
     else if (k == "rurep") c_rurep(a);
     else if (k == "rm") c_rm(a);
@@ -1018,6 +1053,20 @@ struct Gen {
             for (uint64_t sz : {(uint64_t)0, (uint64_t)1, (uint64_t)2, p - 1, p, p + 1, (uint64_t)1000003}) add(hd + H(gseed()) + " 6 " + H(sz));
         }
     }
+    void gen_qf() {
+        // substitution patterns: real draws, and the extreme values of the GMP contract on the first draws (0 forces the non-zero loops round)
+        std::vector<unsigned long long> pats = {0, 1, 2, 3, 4, 5, 6, 7, 8, 9, 13, 26, 27, 40};
+        for (unsigned long long pt : pats) {
+            for (long s : {1L, 2L, 3L, 8L, 31L, 32L, 63L, 64L, 65L, 128L, 200L}) for (int kind : {0, 1})
+                add("qf " + H(rng.next() >> rng.below(60)) + " " + H(pt) + " " + H(kind) + " " + H(s) + " 1");
+            std::vector<std::pair<Integer, Integer>> bs = {{Integer(1), Integer(2)}, {Integer(2), Integer(3)}, {Integer(7), Integer(2)}, {Integer(6), Integer(4)}, {Integer(101), Integer(100)},
+                {pow2(64), pow2(64) + 1}, {pow2(70) + 3, pow2(65) - 1}, {Integer(3), pow2(130) + 1}, {bigrand(100), bigrand(90)}};
+            for (auto& b : bs) for (int kind : {2, 3}) {
+                if (kind == 3 && b.first < 2) continue;       // a non-zero numerator below 1 does not exist
+                add("qf " + H(rng.next() >> rng.below(60)) + " " + H(pt) + " " + H(kind) + " " + HZ(b.first) + " " + HZ(b.second));
+            }
+        }
+    }
     void gen_recint() {
         size_t n = thorough ? 200 : 24;
         for (unsigned K : {6u, 7u, 8u, 9u, 10u}) for (uint64_t s : {(uint64_t)0, (uint64_t)1, (uint64_t)5489, (uint64_t)rng.next(), (uint64_t)~0ULL}) {
@@ -1033,7 +1082,7 @@ struct Gen {
             for (const Integer& p : ps) add("rm " + H(K) + " " + H(mg) + " " + HZ(p) + " " + H(rng.next()) + " " + H(n));
         }
     }
-    void all() { gen_giv(); gen_int(); gen_ring(); gen_poly(); gen_ext(); gen_recint(); }
+    void all() { gen_giv(); gen_int(); gen_ring(); gen_poly(); gen_ext(); gen_qf(); gen_recint(); }
 };
 
 int main(int argc, char** argv) {
